@@ -79,7 +79,7 @@ claim("C07", "other", "abstract interpretation of package queue: intervals with 
       "every return re-establishes 0 <= n <= L and 0 <= head <= max(L-1, 0) (inductive step of the ring invariant; constructors start from 0), every % len(vs) is reached only with L >= 1; "
       "and on every path that neither grows nor rotates the buffer the slot touched is the one the deque semantics prescribes, as a residue class mod L relative to the entry state: "
       "Add writes head+n, Push writes head-1 and leaves head = head-1, Pop reads head and leaves head+1 (free when empty), PopLast reads head+n-1, Front reads head, Peek(i) reads head+i (head+n+i for i<0), "
-      "Each/Slice walk from head in steps of one, and n changes by exactly +1/-1/0. The buffer is only extended by append when it is exactly full (n == len) and starts at cell 0 (branch fact or "
+      "Each/Slice walk from head in steps of one, n changes by exactly +1/-1/0, and every element that is read lies in the live window head … head+n-1 (Front/Pop/PopLast only when non-empty, Peek only for offsets proved within 0 … n-1). The buffer is only extended by append when it is exactly full (n == len) and starts at cell 0 (branch fact or "
       "Rotate(vs, -head) followed by head = 0), so the appended cell is logical position n, and the slot classes continue in the grown buffer with head = 0 (Push's slot after growth); Each is stoppable. "
       "Does NOT decide slice.Rotate's own correctness (that rotating by -head brings the elements to cells 0..n-1 in order), the number of elements Each/Slice visit, "
       "the content of bulk copies, nor — as a whole — that the contents equal the reference deque over arbitrary histories.",
@@ -103,7 +103,7 @@ claim("C15", "model_checking", "explicit-state abstract execution of Quote and J
       "strings of Join, an empty string still yields a word, the result ends complete. Each whole-string predicate (quotable) is shown by exploration to be 'some byte lies in a fixed set' "
       "and scanned to the end unless all results are already true; the sets must contain every POSIX-special byte and every byte the tokenizer does not treat as ordinary. Pooled buffers are "
       "reset before use, returned on every exit and never escape; Split's results come only from the scanner. "
-      "Does NOT decide what a real /bin/sh does beyond the written POSIX reference, that Join visits every element (an element skipped entirely is not noticed), or strings with NUL.",
+      "Join reads the elements of its argument one by one from the first to the end of the list. Does NOT decide what a real /bin/sh does beyond the written POSIX reference, or strings with NUL.",
       BASE_NOTE + " POSIX XCU 2.2's list of special characters and the reference transducer of C16 are the oracles; the tokenizer model is the one checked under C16.",
       "DESIGN.md section 3, C15")
 claim("C01", "other", "provenance of clone's links; stop-flag path rule; orientation derived from the in-order walk and checked on descents, navigation and the bulk loader; value-flow of the stored root; must-pass dedup",
@@ -111,7 +111,8 @@ claim("C01", "other", "provenance of clone's links; stop-flag path rule; orienta
       "clone and original cannot affect each other; in-order iteration stops when told and forwards the stop flag; the side holding smaller keys is read from the ascending in-order "
       "walk and all four key descents (insert, remove, Get, pathTo), Min/Max, popMinRight, inorderAfter and the bulk loader agree with it, with comparator results tested by sign; "
       "popMinRight re-attaches the removed minimum's subtree; the root stored by Add/Replace/Remove derives from the modification's result on every changing path; New sorts and "
-      "de-duplicates on every path to the bulk loader. Does NOT decide that contents and results equal a reference set over histories, size/max bookkeeping, or the DSW rebuild.",
+      "de-duplicates on every path to the bulk loader; the cached element count (Len, IsEmpty) changes only by +1 under a successful insertion, -1 under a successful removal, or to 0 "
+      "with the root dropped. Does NOT decide that contents and results equal a reference set over histories, the max bookkeeping, or the DSW rebuild.",
       BASE_NOTE + " Assumes iteration callbacks do not mutate the tree.",
       "DESIGN.md section 3, C01")
 claim("C03", "other", "dominance guard (Valid) on every cursor dereference; provenance of Clone's path; orientation table; sibling agreement (HasNext~Next, HasPrev~Prev); delegation rule for Inorder",
@@ -140,7 +141,9 @@ claim("C13", "other", "who-may-write rule on Diff.Edits; provenance/aliasing rul
       "Decides structural clauses: Diff.Edits is set once by New and nothing in mdiff writes through it; the in-place context merge in Unify happens only between two Emit edits, "
       "New never puts an Emit edit of the script into a chunk, AddContext's Emit edits have freshly allocated spans and findContext's two results do not share a backing array "
       "(so merging cannot write into Left, Right, the script or the other span); Unify edits the chunk's own edit list (not local copies) and keeps chunks apart only across a "
-      "strict gap; every update of a chunk's left range has the mirrored update of its right range in the same block. Does NOT decide that ranges and edits describe a correct "
+      "strict gap; every update of a chunk's left range has the mirrored update of its right range in the same block (in New: each range end advances together with that side's "
+      "running position, by the number of X resp. Y lines of the edit); no chunk's edit list is a slice of the script; an index into Left/Right is bounded by its own length, not "
+      "only by the sibling's. Does NOT decide that ranges and edits describe a correct "
       "patch; context found by positional comparison across a neighbouring chunk (a data-dependent fault known from earlier dynamic work) has no structural signature.",
       BASE_NOTE,
       "DESIGN.md section 3, C13")
